@@ -151,8 +151,9 @@ class AnsiDecoder:
             elif sgr:
                 # Translate in to semi-colon separated codes
                 # Ignore invalid codes, because we want to be lenient
+                # very long digit strings are clamped without converting them (int() refuses them)
                 codes = [
-                    min(255, int(_code))
+                    min(255, int(_code)) if len(_code) <= 8 else 255
                     for _code in sgr.split(";")
                     if _code.isdecimal()
                 ]
